@@ -1,7 +1,7 @@
 """Property id -> check function."""
 import json
 
-from . import client_checks, conn_checks, data_checks, listen_checks
+from . import cert_checks, client_checks, conn_checks, data_checks, listen_checks
 from .common import *
 
 CHECKS = {
@@ -19,6 +19,7 @@ CHECKS = {
     "C14": listen_checks.check_C14,
     "C15": listen_checks.check_C15,
     "C17": data_checks.check_C17,
+    "C19": cert_checks.check_C19,
     "C20": client_checks.check_C20,
 }
 
